@@ -155,6 +155,7 @@ func IsListed(id string) bool {
 // set the case is loaded from that JSON file and checked directly, without the library.
 func Run[C any](t *testing.T, id string, gen func(*rapid.T) *C, check func(*C, *Obs) error) {
 	st.Property = id
+	curTest = t.Name()
 	if p := os.Getenv("VERIF_REPLAY"); p != "" {
 		b, err := os.ReadFile(p)
 		if err != nil {
@@ -162,13 +163,14 @@ func Run[C any](t *testing.T, id string, gen func(*rapid.T) *C, check func(*C, *
 		}
 		var env struct {
 			Property string          `json:"property"`
+			Test     string          `json:"test"`
 			Case     json.RawMessage `json:"case"`
 		}
 		if err := json.Unmarshal(b, &env); err != nil {
 			t.Fatalf("replay: %v", err)
 		}
-		if env.Property != id {
-			t.Skipf("replay file is for %s", env.Property)
+		if env.Property != id || (env.Test != "" && env.Test != t.Name()) {
+			t.Skipf("replay file is for %s %s", env.Property, env.Test)
 		}
 		var c C
 		if err := json.Unmarshal(env.Case, &c); err != nil {
@@ -330,8 +332,12 @@ func Guard(limit, ref time.Duration, f func() error) error {
 	}
 }
 
+// curTest is the Go test function the running property belongs to; it is stored in the replay
+// file so that a property with several tests replays a case only through the test that made it.
+var curTest string
+
 func recordFail(id string, c any, msg string) {
-	b, err := json.Marshal(map[string]any{"property": id, "case": c, "message": msg})
+	b, err := json.Marshal(map[string]any{"property": id, "test": curTest, "case": c, "message": msg})
 	if err != nil {
 		b, _ = json.Marshal(map[string]any{"property": id, "message": msg, "marshal_error": err.Error()})
 	}
